@@ -1,6 +1,6 @@
 """Property id -> rules, and the texts that go to MANIFEST / evidence."""
 from .rules import (
-    optab, sign, role, memo, state, reord, handles, raw, domain)
+    optab, sign, role, memo, state, reord, handles, raw, domain, formats)
 
 PROPS = dict()
 NOT_BUILT = dict()
@@ -85,6 +85,7 @@ prop('C04', [
     role.r_role,
     memo.r_memo,
     domain.r_domain,
+    formats.r_dispatch,
 ],
     'sign accounting in _cofactor, _compose, _vector_compose, _copy_bdd '
     '(hit and miss paths); a true value selects the HIGH successor in '
@@ -204,6 +205,7 @@ prop('C12', [
     raw.r_temporaries,
     domain.r_domain,
     domain.r_rebuild,
+    formats.r_format,
 ],
     'sign and roles across pickle/JSON writers and readers.',
     'file-system behaviour, shelve.',
@@ -223,6 +225,7 @@ prop('C14', [
     state.r_writers,
     memo.r_inval,
     raw.r_raw,
+    formats.r_bound,
 ],
     'vars/_level_to_var written as inverse entries and the terminal moved '
     'below each new variable on every path of add_var; undeclare_vars '
